@@ -100,6 +100,17 @@ func (bpi *BucketPolicyItem) Validate(bucket string, iam IAMService) error {
 	if err := bpi.Effect.Validate(); err != nil {
 		return err
 	}
+	// a statement without a principal, an action or a resource matches
+	// nothing: a Deny written that way would silently not apply
+	if len(bpi.Principals) == 0 {
+		return policyErrInvalidPrincipal
+	}
+	if len(bpi.Actions) == 0 {
+		return policyErrInvalidAction
+	}
+	if len(bpi.Resources) == 0 {
+		return policyErrInvalidResource
+	}
 	if err := bpi.Principals.Validate(iam); err != nil {
 		return err
 	}
